@@ -260,18 +260,17 @@ def judge(run, bases, cases, rows, verbose=False):
 
 
 def regex_correspondence(run, regs):
-    """X for the hand-transcribed validator regexes: Tmpl.Validators.validator_matches against Go's regexp on a corpus"""
+    """X for the hand-transcribed validator regexes: Tmpl.Validators.validator_matches against Go's regexp on every
+    one-byte perturbation (all 256 byte values, insertion and replacement, every position) of accepted samples"""
     if not regs:
         return
-    body = "From NIC Require Import Tmpl.Regex Tmpl.Validators.\n"
-    rows = []
-    idx = []
+    body = "From NIC Require Import Tmpl.Regex Tmpl.Validators Tmpl.C06Regex.\n"
+    rows, idx = [], []
     for k, r in enumerate(regs):
-        for j, (bs, m) in enumerate(zip(r["cases"], r["match"])):
-            rows.append("(match validator_matches %s %s with Some b => if Bool.eqb b %s then 1%%Z else 0%%Z | None => 2%%Z end)"
-                        % (C.cq_str(r["name"]), C.cq_bytes(list(bs or [])), C.cq_bool(m)))
+        for j, w in enumerate(r.get("rows") or []):
+            rows.append("sweep_row %s %s %d %d \"%s\"" % (C.cq_str(r["name"]), C.cq_bytes(list(w["sample"] or [])), w["pos"], w["mode"], w["bits"]))
             idx.append((k, j))
-    chunks = [rows[i:i + 250] for i in range(0, len(rows), 250)]
+    chunks = [rows[i:i + 120] for i in range(0, len(rows), 120)]
     for ci, ch in enumerate(chunks):
         body += "Definition results%d : list (list Z) := Eval vm_compute in [[" % ci + ";\n ".join(ch) + "]].\nPrint results%d.\n" % ci
     path = os.path.join(C.WORK, "cases", "C06_regex_%s.v" % run.tier)
@@ -284,18 +283,23 @@ def regex_correspondence(run, regs):
             raise C.TieBroken("coqc could not evaluate the C06 regex correspondence file (%s): %s" % (path, out[-1500:]))
         flat += res[0]
     if len(flat) != len(rows):
-        raise C.TieBroken("C06 regex correspondence: %d verdicts for %d strings" % (len(flat), len(rows)))
-    bad = {}
+        raise C.TieBroken("C06 regex correspondence: %d verdicts for %d rows" % (len(flat), len(rows)))
+    bad, per = {}, {}
     for (k, j), v in zip(idx, flat):
-        if v != 1:
-            r = regs[k]
-            bad.setdefault(r["name"] + "@" + r["source"], []).append((bytes_of(r["cases"][j]).decode("latin1"), r["match"][j], v))
-    n = len(rows)
-    run.cov["regex_correspondence"] = {"regexes": len(regs), "strings": n, "disagreements": sum(len(v) for v in bad.values())}
-    for name in sorted({r["name"] + "@" + r["source"] for r in regs}):
+        r = regs[k]
+        name = r["name"] + "@" + r["source"]
+        per[name] = per.get(name, 0) + 256
+        if v != 0:
+            w = r["rows"][j]
+            bad.setdefault(name, []).append("sample %r %s at %d: %s byte values disagree" % (
+                bytes_of(w["sample"]).decode("latin1"), "insert" if w["mode"] == 0 else "replace", w["pos"], "name unknown," if v < 0 else v))
+    run.cov["regex_correspondence"] = {"regexes": len(regs), "strings": sum(per.values()), "rows_with_disagreement": sum(len(v) for v in bad.values())}
+    for r in regs:
+        name = r["name"] + "@" + r["source"]
         b = bad.get(name)
-        run.add_obligation(not b, "regex transcription %s agrees with Go regexp on the corpus" % name,
-                           "Tmpl.Validators disagrees with the real regular expression on %s (string, go verdict, 0=differs 2=unknown name)" % (b[:5] if b else ""))
+        ok = not b and len(r.get("rows") or []) > 0
+        run.add_obligation(ok, "regex transcription %s agrees with Go regexp on %d one-byte perturbations of accepted samples" % (name, per.get(name, 0)),
+                           "Tmpl.Validators disagrees with the real regular expression: %s" % (b[:4] if b else "no sample of this expression is accepted any more"))
 
 
 def translate_templates(run):
